@@ -22,7 +22,7 @@ type CCase struct {
 	Phases   [][][]COp `json:"phases"` // phase -> goroutine -> ops
 	Force    bool      `json:"force"`  // final Close(force)
 	Procs    int       `json:"procs,omitempty"`
-	Late     int       `json:"late,omitempty"` // handles taken before Close and released only after it (the second one is also Deleted while held)
+	Late     int       `json:"late,omitempty"`   // handles taken before Close and released only after it (the second one is also Deleted while held)
 	Spread   int       `json:"spread,omitempty"` // 0: small keys; 1: every other key/namespace has the top bit set; 2: keys scattered over all 64 bits
 }
 
